@@ -57,7 +57,6 @@ import (
 	"github.com/hashicorp/consul/agent/connect"
 	"github.com/hashicorp/consul/agent/structs"
 	"github.com/hashicorp/consul/internal/verifkit"
-	"github.com/hashicorp/consul/testrpc"
 )
 
 // verifC12CSR is one submission: everything needed to rebuild the CSR and the authorizer byte for byte (keys aside).
@@ -97,11 +96,22 @@ func verifC12NewEnv(t *testing.T) *verifC12Env {
 		srv.Shutdown()
 		os.RemoveAll(dir)
 	})
-	testrpc.WaitForLeader(t, srv.RPC, "dc1")
-	testrpc.WaitForActiveCARoot(t, srv.RPC, "dc1", nil)
-	_, conf, err := srv.fsm.State().CAConfig(nil)
-	if err != nil || conf == nil {
-		t.Fatalf("harness: no CA config: %v", err)
+	// Wait for leadership and an initialised CA. The machine may be heavily loaded: be far more patient than the
+	// 7 s of testrpc.WaitForLeader (a slow start is not a verdict).
+	var conf *structs.CAConfiguration
+	deadline := time.Now().Add(3 * time.Minute)
+	for {
+		var err error
+		_, conf, err = srv.fsm.State().CAConfig(nil)
+		_, root, _ := srv.fsm.State().CARootActive(nil)
+		provider, provRoot := srv.caManager.getCAProvider()
+		if err == nil && conf != nil && root != nil && provider != nil && provRoot != nil && srv.IsLeader() {
+			break
+		}
+		if time.Now().After(deadline) {
+			t.Fatalf("harness: the test server did not become leader with an initialised CA within 3 minutes (config=%v root=%v leader=%v err=%v)", conf != nil, root != nil, srv.IsLeader(), err)
+		}
+		time.Sleep(50 * time.Millisecond)
 	}
 	env := &verifC12Env{srv: srv, dc: "dc1", td: connect.SpiffeIDSigningForCluster(conf.ClusterID).Host(), seen: map[string]string{}}
 	for i := 0; i < 4; i++ {
@@ -266,9 +276,14 @@ func verifC12Submit(f verifkit.F, c *verifkit.Case, e *verifC12Env, s verifC12CS
 				c.Label("refused-by-acl:neighbouring-grants-only")
 				c.NonTrivial()
 			}
-		} else {
+		} else if connect.IsInvalidCSRError(err) || strings.Contains(err.Error(), "SPIFFE") || strings.HasPrefix(err.Error(), "Invalid ") {
 			c.Label("outcome=refused-by-shape")
 			rec.AddExtraInt("csr_refused_by_shape", 1)
+		} else {
+			// not a judgement on the request: the server could not serve it (leadership, rate limit, provider error)
+			c.Label("outcome=server-error")
+			rec.AddExtraInt("csr_server_error", 1)
+			f.Logf("server error (not judged): %v", err)
 		}
 		return
 	}
